@@ -80,3 +80,19 @@ Definition mac_msg_stdout : list N :=
   [102; 97; 105; 108; 101; 100; 32; 112; 114; 105; 110; 116; 105; 110; 103; 32; 116; 111; 32; 115; 116; 100; 111; 117; 116; 58; 32].
 Definition mac_msg_stderr : list N :=
   [102; 97; 105; 108; 101; 100; 32; 112; 114; 105; 110; 116; 105; 110; 103; 32; 116; 111; 32; 115; 116; 100; 101; 114; 114; 58; 32].
+
+(* ---- vocabulary of tools/gen_fn_htmlescape.py, generator IsTerminalFn (Generated/IsTerminalFn.v): the third-party crates
+   is_terminal_polyfill (src/lib.rs) and is-terminal (src/lib.rs, unix configuration).  Definitions only. ----
+   The operating system as far as `is_terminal` consults it: which descriptor a std handle (File, Stdin, Stdout, Stderr
+   and their locks: the raw streams of the stream area, [writer]) holds -- `AsFd::as_fd` / `as_raw_fd` --, and what
+   `libc::isatty` answers for a descriptor (a C int: non-zero = a terminal). *)
+From Coq Require Import ZArith.
+Definition pf_fd : Set := N.
+Record pf_os : Set := mkPfOs { pf_as_fd : writer -> pf_fd; pf_isatty : pf_fd -> Z }.
+
+(* "isatty of the handle's OWN descriptor answered non-zero" *)
+Definition pf_tty (os : pf_os) (w : writer) : bool := negb (Z.eqb (pf_isatty os (pf_as_fd os w)) 0%Z).
+
+(* the answers [cf] of the stream area (Model/Stream.v [acfg]: `raw.is_terminal()` = [ac_tty cf]) describe the raw stream
+   [w] under the operating system [os] *)
+Definition pf_os_agrees (os : pf_os) (cf : acfg) (w : writer) : Prop := pf_tty os w = ac_tty cf.
